@@ -1,6 +1,7 @@
-(* C01 (front end), part 4 -- the front end `tok_frontend` on valid pieces (notes only, no time-signature messages):
-   it succeeds, its events are ordered by time, the NOTE_ON events of channel i are the notes of track i, the event
-   list is valid for the core, hence the piece-level round trip. *)
+(* C01 (front end), part 4 -- the front end `tok_frontend` on valid pieces (notes on every track, time-signature
+   messages on track 0): it succeeds, its events are ordered by time, the NOTE_ON events of channel i are the notes of
+   track i, the TIME_SIGNATURE events are those of track 0, the event list is valid for the core, hence the
+   piece-level round trip. *)
 From Coq Require Import ZArith List Bool Lia Permutation Sorted.
 From Model Require Import Base Util Seq Pairing Tok.
 From Proofs Require Import C04_sort C04_proofs C05_closest C07_proofs.
@@ -131,40 +132,68 @@ Proof.
 Qed.
 
 (* ================================================================ validity of a piece *)
-(* per-track well-formedness: non-negative waits, only WAIT / NOTE_ON / NOTE_OFF messages, and per pitch the notes
-   strictly alternate on / off with a positive wait sum between an on and its off (no overlap, nothing left open).
-   The track index is not used in this notes-only version (time signatures, which would be allowed on track 0 only,
-   are excluded). *)
-Definition valid_track (i : Z) (r : list msg) : bool := sig_track_ok r.
+(* per-track well-formedness (track index i): non-negative waits; only WAIT / NOTE_ON / NOTE_OFF messages, plus
+   TIME_SIGNATURE messages on track 0; per pitch the notes strictly alternate on / off with a positive wait sum
+   between an on and its off (no overlap, nothing left open); at most one time signature per tick and no time
+   signature that repeats the one in force. *)
+Definition valid_track (i : Z) (r : list msg) : bool := track_ok i r.
 
 Definition note_ok (g : Z) (c : cfg) (x : note) : bool :=
   let '(p, t, t', v) := x in
   divb g t && in_range (c_plo c) p (c_phi c) && memZ (t' - t) (c_values c) && (0 <=? t' - t) && (v <=? VELOCITY_MAX).
 
-(* one track per configured track; every track well formed; every note on the grid, in the pitch range, with a
-   duration among the note values and a velocity <= 127; the duration of the longest track on the grid *)
+(* the (tick, numerator, denominator) of the time signatures of the piece: those of track 0 *)
+Definition piece_tsl (tracks : list (list msg)) : list (Z * Z * Z) :=
+  match tracks with [] => [] | r0 :: _ => tsv (ev_rel r0) end.
+
+(* the time signatures against the bar grid: t0 = start of the current run of bars of length B.  Every signature is
+   on the tick grid; one that falls inside a bar is ignored by the tokeniser; one on a bar line must be expressible
+   (positive denominator, a whole number of eighths within the signature range) and its bar length must be a positive
+   multiple of the grid; it starts a new run of bars. *)
+Fixpoint ts_run (g : Z) (c : cfg) (t0 B : Z) (l : list (Z * Z * Z)) : bool :=
+  match l with
+  | [] => true
+  | (t, n, d) :: l' =>
+      divb g t &&
+      if 0 <? (t - t0) mod B then ts_run g c t0 B l'
+      else (0 <? d) && ((n * DEFAULT_TS_DEN) mod d =? 0) &&
+           in_range (c_tslo c) ((n * DEFAULT_TS_DEN) / d) (c_tshi c) &&
+           (0 <? bar_cap c n d) && divb g (bar_cap c n d) && ts_run g c t (bar_cap c n d) l'
+  end.
+
+(* one track per configured track; track j valid as track j (`tracks_ok 0 tracks` is the conjunction of
+   `valid_track j r_j`); every note on the grid, in the pitch range, with a duration among the note values and a
+   velocity <= 127; the duration of the longest track on the grid; the time signatures fit the bar grid *)
 Definition valid_piece (g : Z) (c : cfg) (tracks : list (list msg)) : bool :=
   (lenZ tracks =? c_ntracks c) &&
-  forallb (fun ir => valid_track (fst ir) (snd ir)) (mapi (fun i r => (i, r)) tracks) &&
+  tracks_ok 0 tracks &&
   forallb (fun r => forallb (note_ok g c) (notes_of r)) tracks &&
-  divb g (piece_dur tracks).
+  divb g (piece_dur tracks) &&
+  ts_run g c 0 (bar_cap c DEFAULT_TS_NUM DEFAULT_TS_DEN) (piece_tsl tracks).
 
-Lemma mapi_aux_pair_In {A} (l : list A) : forall j r, In r l -> exists i, In (i, r) (mapi_aux (fun i r => (i, r)) j l).
+Lemma tracks_ok_valid_track tracks : forall j, tracks_ok j tracks = true <->
+  forall n r, nth_error tracks n = Some r -> valid_track (j + Z.of_nat n) r = true.
 Proof.
-  induction l as [|a l IH]; intros j r H; [destruct H|]. cbn [mapi_aux]. destruct H as [->|H].
-  - exists j. now left.
-  - destruct (IH (j + 1) r H) as [i Hi]. exists i. now right.
+  induction tracks as [|r0 ts IH]; intros j; cbn [tracks_ok].
+  - split; [intros _ n r H; destruct n; discriminate|reflexivity].
+  - rewrite andb_true_iff, IH. split.
+    + intros [H0 H] n r Hn. destruct n as [|n]; cbn [nth_error] in Hn.
+      * injection Hn as <-. now rewrite Z.add_0_r.
+      * replace (j + Z.of_nat (S n)) with (j + 1 + Z.of_nat n) by lia. now apply H.
+    + intros H. split; [specialize (H 0%nat r0 eq_refl); now rewrite Z.add_0_r in H|].
+      intros n r Hn. replace (j + 1 + Z.of_nat n) with (j + Z.of_nat (S n)) by lia. now apply H.
 Qed.
 
 Lemma valid_piece_parts g c tracks : valid_piece g c tracks = true ->
-  lenZ tracks = c_ntracks c /\ Forall (fun r => sig_track_ok r = true) tracks /\
-  (forall r x, In r tracks -> In x (notes_of r) -> note_ok g c x = true) /\ divb g (piece_dur tracks) = true.
+  lenZ tracks = c_ntracks c /\ tracks_ok 0 tracks = true /\
+  (forall r x, In r tracks -> In x (notes_of r) -> note_ok g c x = true) /\ divb g (piece_dur tracks) = true /\
+  ts_run g c 0 (bar_cap c DEFAULT_TS_NUM DEFAULT_TS_DEN) (piece_tsl tracks) = true.
 Proof.
-  unfold valid_piece. intros H. apply andb_prop in H. destruct H as [H H4]. apply andb_prop in H. destruct H as [H H3].
-  apply andb_prop in H. destruct H as [H1 H2]. apply Z.eqb_eq in H1. rewrite forallb_forall in H2, H3.
-  split; [exact H1|]. split; [|split; [|exact H4]].
-  - apply Forall_forall. intros r Hr. destruct (mapi_aux_pair_In tracks 0 r Hr) as [i Hi]. exact (H2 (i, r) Hi).
-  - intros r x Hr Hx. specialize (H3 r Hr). rewrite forallb_forall in H3. now apply H3.
+  unfold valid_piece. intros H. apply andb_prop in H. destruct H as [H H5]. apply andb_prop in H. destruct H as [H H4].
+  apply andb_prop in H. destruct H as [H H3]. apply andb_prop in H. destruct H as [H1 H2]. apply Z.eqb_eq in H1.
+  rewrite forallb_forall in H3.
+  split; [exact H1|]. split; [exact H2|]. split; [|split; [exact H4|exact H5]].
+  intros r x Hr Hx. specialize (H3 r Hr). rewrite forallb_forall in H3. now apply H3.
 Qed.
 
 (* ================================================================ the events of a valid piece *)
@@ -179,20 +208,72 @@ Definition ev_local_ok (g : Z) (c : cfg) (e : C01_rest.event) : bool :=
   | _ => true
   end.
 
-Lemma valid_from_local g c evs : forall k,
-  StronglySorted ele evs -> (forall e, In e evs -> ev_local_ok g c e = true /\ r_time k <= ev_time e) ->
+Definition is_tsev (e : C01_rest.event) : bool := is_ts (ev_msg e).
+Definition ev_tsv (e : C01_rest.event) : Z * Z * Z := (ev_time e, m_num (ev_msg e), m_den (ev_msg e)).
+
+Lemma is_ts_type m : is_ts m = true <-> m_type m = TIME_SIGNATURE.
+Proof. unfold is_ts, mtype_eqb. destruct (m_type m); cbn; split; congruence. Qed.
+
+(* validity of a time-sorted event list whose non-signature events are locally valid and whose time signatures,
+   in event order, fit the bar grid *)
+Lemma valid_from_ts g c evs : forall k t0 B,
+  0 < B -> r_total k = B -> r_tbar k = (r_time k - t0) mod B ->
+  StronglySorted ele evs ->
+  (forall e, In e evs -> r_time k <= ev_time e /\ (is_tsev e = false -> ev_local_ok g c e = true)) ->
+  ts_run g c t0 B (map ev_tsv (filter is_tsev evs)) = true ->
   valid_from g c k evs = true.
 Proof.
-  induction evs as [|e evs IH]; intros k Hs H; [reflexivity|]. cbn [valid_from].
-  destruct (H e (or_introl eq_refl)) as [Hl Ht]. apply andb_true_intro. split.
-  - unfold ev_ok. unfold ev_local_ok in Hl. apply andb_prop in Hl. destruct Hl as [Hd Hl]. unfold ev_time in Ht.
-    rewrite Hd. replace (r_time k <=? m_time (ev_msg e)) with true by (symmetry; now apply Z.leb_le). cbn [andb].
-    destruct (m_type (ev_msg e)); try reflexivity; try exact Hl. discriminate.
-  - inversion Hs as [|? ? Hs' He]; subst. apply IH; [exact Hs'|]. intros x Hx.
-    split; [apply H; now right|]. rewrite Forall_forall in He. specialize (He x Hx). unfold ele, ptime in He.
-    assert (Hr : r_time (fst (ref_step c k e)) = ev_time e).
-    { unfold ref_step. fold (ev_time e). destruct (m_type (ev_msg e)); reflexivity. }
-    rewrite Hr. exact He.
+  induction evs as [|e evs IH]; intros k t0 B HB Htot Htb Hs H Hrun; [reflexivity|]. cbn [valid_from].
+  destruct (H e (or_introl eq_refl)) as [Ht Hl].
+  inversion Hs as [|? ? Hs' He]; subst.
+  assert (Hadv : adv_tbar k (ev_time e) = (ev_time e - t0) mod r_total k).
+  { unfold adv_tbar. rewrite Htb. rewrite Z.add_mod_idemp_l by lia. f_equal. lia. }
+  assert (Hnext : forall x, In x evs -> ev_time e <= ev_time x).
+  { intros x Hx. rewrite Forall_forall in He. specialize (He x Hx). exact He. }
+  assert (Hle : (r_time k <=? m_time (ev_msg e)) = true) by (apply Z.leb_le; exact Ht).
+  cbn [filter] in Hrun. destruct (is_tsev e) eqn:Ets.
+  - (* a time signature *)
+    cbn [map ts_run] in Hrun. unfold ev_tsv at 1 in Hrun. apply andb_prop in Hrun. destruct Hrun as [Hd Hrun].
+    assert (T : m_type (ev_msg e) = TIME_SIGNATURE) by (now apply is_ts_type).
+    assert (Hk' : fst (ref_step c k e) =
+                  mkrc (ev_time e) (adv_tbar k (ev_time e))
+                       (if 0 <? adv_tbar k (ev_time e) then r_total k
+                        else bar_cap c (m_num (ev_msg e)) (m_den (ev_msg e))) (adv_has k (ev_time e))).
+    { unfold ref_step. rewrite T. reflexivity. }
+    destruct (0 <? (ev_time e - t0) mod r_total k) eqn:Epos.
+    + apply andb_true_intro. split.
+      * unfold ev_ok. rewrite T, Hle. unfold ev_time in Hd. rewrite Hd. cbn [andb].
+        fold (ev_time e). rewrite Hadv, Epos. reflexivity.
+      * apply (IH _ t0 (r_total k)); try assumption.
+        -- rewrite Hk'. cbn [r_total]. now rewrite Hadv, Epos.
+        -- rewrite Hk'. cbn [r_tbar r_time]. exact Hadv.
+        -- intros x Hx. rewrite Hk'. cbn [r_time]. split; [now apply Hnext|]. apply H. now right.
+    + apply andb_prop in Hrun. destruct Hrun as [Hconj Hrun].
+      assert (HB' : 0 < bar_cap c (m_num (ev_msg e)) (m_den (ev_msg e))).
+      { apply andb_prop in Hconj. destruct Hconj as [Hconj _]. apply andb_prop in Hconj. destruct Hconj as [_ Hb].
+        now apply Z.ltb_lt in Hb. }
+      assert (Hz : (ev_time e - t0) mod r_total k = 0).
+      { pose proof (Z.mod_pos_bound (ev_time e - t0) (r_total k) HB). apply Z.ltb_ge in Epos. lia. }
+      apply andb_true_intro. split.
+      * unfold ev_ok. rewrite T, Hle. unfold ev_time in Hd. rewrite Hd. cbn [andb].
+        fold (ev_time e). rewrite Hadv, Epos. cbn [orb]. exact Hconj.
+      * apply (IH _ (ev_time e) (bar_cap c (m_num (ev_msg e)) (m_den (ev_msg e)))); try assumption.
+        -- rewrite Hk'. cbn [r_total]. now rewrite Hadv, Epos.
+        -- rewrite Hk'. cbn [r_tbar r_time]. rewrite Hadv, Hz, Z.sub_diag. reflexivity.
+        -- intros x Hx. rewrite Hk'. cbn [r_time]. split; [now apply Hnext|]. apply H. now right.
+  - (* a note or a cap *)
+    specialize (Hl eq_refl). unfold ev_local_ok in Hl. apply andb_prop in Hl. destruct Hl as [Hd Hl].
+    assert (Hk' : r_time (fst (ref_step c k e)) = ev_time e /\ r_tbar (fst (ref_step c k e)) = adv_tbar k (ev_time e) /\
+                  r_total (fst (ref_step c k e)) = r_total k).
+    { unfold ref_step. fold (ev_time e). unfold is_tsev, is_ts, mtype_eqb in Ets.
+      destruct (m_type (ev_msg e)); cbn in Ets; try discriminate; repeat split. }
+    destruct Hk' as (K1 & K2 & K3).
+    apply andb_true_intro. split.
+    + unfold ev_ok. rewrite Hle, Hd. cbn [andb].
+      destruct (m_type (ev_msg e)); try reflexivity; try exact Hl. discriminate.
+    + apply (IH _ t0 (r_total k)); try assumption.
+      * rewrite K2, K1. exact Hadv.
+      * intros x Hx. rewrite K1. split; [now apply Hnext|]. apply H. now right.
 Qed.
 
 Lemma is_on_type' m : is_on m = true -> m_type m = NOTE_ON.
@@ -242,6 +323,13 @@ Proof.
     intros ch pl0 H. apply Hc. now right.
 Qed.
 
+Lemma piece_ts_tsl tracks :
+  map (fun e : C04_proofs.event => (fst e, m_num (snd e), m_den (snd e))) (piece_ts tracks) = piece_tsl tracks.
+Proof.
+  destruct tracks as [|r0 ts]; [reflexivity|]. cbn [piece_ts piece_tsl].
+  fold (tsv (ev_rel (setch 0 r0))). unfold setch, ev_rel. apply tsv_set_channel.
+Qed.
+
 Section Valid.
   Variables (g : Z) (c : cfg) (tracks : list (list msg)).
   Hypothesis Hc : valid_cfg g c = true.
@@ -249,7 +337,7 @@ Section Valid.
 
   Let S := fe_sorted tracks.
   Let P := pairings_sorted TOK_TYPES PPQN true S.
-  Let Hok : Forall (fun r => sig_track_ok r = true) tracks := proj1 (proj2 (valid_piece_parts g c tracks Hv)).
+  Let Hok : tracks_ok 0 tracks = true := proj1 (proj2 (valid_piece_parts g c tracks Hv)).
 
   Lemma S_alt k : alt k false S = true.
   Proof.
@@ -275,7 +363,8 @@ Section Valid.
   Lemma P_facts :
     uniq P /\
     (forall ch pl, In (ch, pl) P -> pl <> [] /\ Forall (pgood S ch) pl /\ ForallOrdPairs mle (map p_first pl)) /\
-    (forall ch n, map strip (filter (onpitch n) (chan_pairs ch P)) = cpairs None (kp (ch, n) S)).
+    (forall ch n, map strip (filter (onpitch n) (chan_pairs ch P)) = cpairs None (kp (ch, n) S)) /\
+    (forall ch, map p_first (filter nonon (chan_pairs ch P)) = filter (single ch) S).
   Proof. apply pairings_tok; [apply fe_sorted_tsorted|exact S_alt]. Qed.
 
   Definition fe_events : list C01_rest.event := interleave P.
@@ -308,7 +397,7 @@ Section Valid.
   Lemma chan_notes_pitch ch n :
     map pnote (filter (onpitch n) (chan_pairs ch P)) = sig_notes n None (piece_sig 0 tracks (ch, n)).
   Proof.
-    destruct P_facts as (_ & _ & H3). specialize (H3 ch n).
+    destruct P_facts as (_ & _ & H3 & _). specialize (H3 ch n).
     rewrite (map_ext pnote (fun p => snote (strip p))) by (intros; apply pnote_strip).
     rewrite <- map_map, H3. rewrite <- (fe_sorted_sig tracks Hok (ch, n)). fold S. rewrite asig_kp.
     apply (cpairs_sig_notes (ch, n) (kp (ch, n) S)) with (o := None).
@@ -343,22 +432,28 @@ Section Valid.
     rewrite <- (piece_sig_nth tracks n 0 i Hi). reflexivity.
   Qed.
 
-  Lemma event_local e : In e fe_events -> ev_local_ok g c e = true /\ 0 <= ev_time e.
+  Lemma first_ts_chan m : In m S -> is_ts m = true -> m_chan m = 0.
+  Proof.
+    intros Hin Ht. destruct (fe_sorted_types tracks Hok _ Hin) as [Hn|[[Hi _]|[_ H0]]]; [| |exact H0].
+    - rewrite (ts_not_note m Ht) in Hn. discriminate.
+    - rewrite (ts_not_internal m Ht) in Hi. discriminate.
+  Qed.
+
+  Lemma event_local e : In e fe_events -> 0 <= ev_time e /\ (is_tsev e = false -> ev_local_ok g c e = true).
   Proof.
     intros He. destruct (event_in e He) as (pl & Hkv & Hp). destruct e as [ch p]. cbn [fst snd] in *.
     destruct P_facts as (Hu & H2 & _). destruct (H2 ch pl Hkv) as (_ & Hg & _).
     rewrite Forall_forall in Hg. destruct (Hg p Hp) as (Hch & Hin & Hft).
-    pose proof (valid_piece_parts g c tracks Hv) as (Hlen & _ & Hnotes & Hdur).
+    pose proof (valid_piece_parts g c tracks Hv) as (Hlen & _ & Hnotes & Hdur & _).
     assert (Hnn : 0 <= m_time (p_first p)).
     { pose proof (wfa_Forall _ (fe_sorted_wfa tracks)) as Hw. rewrite Forall_forall in Hw. now apply Hw. }
-    split; [|exact Hnn]. unfold ev_local_ok, ev_msg. cbn [snd].
-    destruct (fe_sorted_types tracks Hok _ Hin) as [Hn|[Hi Ht]].
+    split; [exact Hnn|]. unfold is_tsev, ev_local_ok, ev_msg. cbn [snd]. intros Hnts.
+    destruct (fe_sorted_types tracks Hok _ Hin) as [Hn|[[Hi Ht]|[Hts _]]]; [| |congruence].
     - (* a note: it is a NOTE_ON, and one of the notes of track ch *)
       assert (Hon : is_on (p_first p) = true).
       { unfold ftype in Hft. destruct (is_on (p_first p)); [reflexivity|]. cbn [orb] in Hft.
-        apply orb_prop in Hft. destruct Hft as [Hf|Hf].
-        - unfold is_ts, is_note, is_on, is_off, mtype_eqb in *. destruct (m_type (p_first p)); cbn in *; congruence.
-        - apply note_not_internal in Hn. congruence. }
+        apply orb_prop in Hft. destruct Hft as [Hf|Hf]; [congruence|].
+        apply note_not_internal in Hn. congruence. }
       assert (Hpl : chan_pairs ch P = pl) by (unfold chan_pairs; now rewrite (In_dget _ _ _ Hu Hkv)).
       assert (Hx : In (pnote p) (sig_notes (m_note (p_first p)) None (piece_sig 0 tracks (ch, m_note (p_first p))))).
       { rewrite <- chan_notes_pitch, Hpl. apply in_map. apply filter_In. split; [exact Hp|].
@@ -383,11 +478,50 @@ Section Valid.
       reflexivity.
   Qed.
 
+  (* the TIME_SIGNATURE events, in event order, are the time signatures of track 0 *)
+  Lemma events_ts : map ev_tsv (filter is_tsev fe_events) = piece_tsl tracks.
+  Proof.
+    destruct P_facts as (Hu & H2 & _ & H4).
+    assert (E1 : filter is_tsev fe_events = filter is_tsev (filter (fun e => fst e =? 0) fe_events)).
+    { rewrite filter_filter. apply filter_ext_in'. intros e He. destruct (is_tsev e) eqn:Ets; [|now rewrite andb_false_r].
+      rewrite andb_true_r. symmetry. apply Z.eqb_eq.
+      destruct (event_in e He) as (pl & Hkv & Hp). destruct (H2 _ _ Hkv) as (_ & Hg & _).
+      rewrite Forall_forall in Hg. destruct (Hg _ Hp) as (Hch & Hin & _). rewrite <- Hch.
+      now apply first_ts_chan. }
+    rewrite E1. unfold fe_events. rewrite (interleave_chan 0 P Hu).
+    set (pl := chan_pairs 0 P) in *.
+    assert (E2 : map ev_tsv (filter is_tsev (map (pair 0) pl)) =
+                 map (fun m => (m_time m, m_num m, m_den m)) (filter is_ts (map p_first (filter nonon pl)))).
+    { rewrite !filter_map_comm, !map_map, filter_filter. cbn [snd].
+      rewrite (filter_ext_in' (fun x => nonon x && is_ts (p_first x)) (fun x => is_tsev (0, x)) pl); [reflexivity|].
+      intros p _. unfold is_tsev, ev_msg, nonon. cbn [snd]. destruct (is_ts (p_first p)) eqn:E; [|apply andb_false_r].
+      assert (is_on (p_first p) = false) as ->; [|reflexivity].
+      destruct (is_on (p_first p)) eqn:Eon; [|reflexivity]. apply on_is_note in Eon. rewrite (ts_not_note _ E) in Eon.
+      discriminate. }
+    rewrite E2. unfold pl. rewrite (H4 0), filter_filter.
+    rewrite (filter_ext_in' (fun m => single 0 m && is_ts m) is_ts S).
+    - pose proof (fe_sorted_ats tracks Hok) as Ha. fold S in Ha. rewrite ats_filter in Ha.
+      transitivity (map (fun e : C04_proofs.event => (fst e, m_num (snd e), m_den (snd e)))
+                        (map (fun m => (m_time m, strip_time m)) (filter is_ts S))).
+      + rewrite map_map. reflexivity.
+      + rewrite Ha. apply piece_ts_tsl.
+    - intros m Hm. destruct (is_ts m) eqn:E; [|apply andb_false_r]. rewrite andb_true_r.
+      unfold single. rewrite E, (first_ts_chan m Hm E). reflexivity.
+  Qed.
+
   (* 3. the events are valid for the core *)
   Lemma frontend_valid : valid_events g c fe_events = true.
   Proof.
-    unfold valid_events. apply valid_from_local; [apply events_sorted|]. intros e He. cbn [rclk0 r_time].
-    now apply event_local.
+    pose proof (valid_cfg_parts g c Hc) as (_ & _ & _ & _ & _ & HB & _).
+    pose proof (valid_piece_parts g c tracks Hv) as (_ & _ & _ & _ & Hts).
+    unfold valid_events.
+    apply (valid_from_ts g c fe_events (rclk0 c) 0 (bar_cap c DEFAULT_TS_NUM DEFAULT_TS_DEN)).
+    - exact HB.
+    - reflexivity.
+    - cbn [rclk0 r_tbar r_time]. reflexivity.
+    - apply events_sorted.
+    - intros e He. cbn [rclk0 r_time]. now apply event_local.
+    - rewrite events_ts. exact Hts.
   Qed.
 End Valid.
 
@@ -399,28 +533,63 @@ Proof.
   pose proof (P_chan g c tracks Hv (fst e) pl Hkv) as Hf. rewrite Forall_forall in Hf. symmetry. now apply Hf.
 Qed.
 
+Lemma track_notes_filter i evs : (forall e, In e evs -> fst e = m_chan (ev_msg e)) ->
+  track_notes i evs = track_notes i (filter (fun e => fst e =? i) evs).
+Proof.
+  induction evs as [|e evs IH]; intros H; [reflexivity|]. cbn [filter].
+  assert (IH' : track_notes i evs = track_notes i (filter (fun e => fst e =? i) evs)) by (apply IH; intros x Hx; apply H; now right).
+  destruct (fst e =? i) eqn:E.
+  - change (e :: evs) with ([e] ++ evs). change (e :: filter (fun e0 => fst e0 =? i) evs) with ([e] ++ filter (fun e0 => fst e0 =? i) evs).
+    rewrite !track_notes_app. now rewrite IH'.
+  - change (e :: evs) with ([e] ++ evs). rewrite track_notes_app, <- IH'.
+    unfold track_notes at 1. cbn [flat_map]. rewrite <- (H e (or_introl eq_refl)), E, andb_false_r. reflexivity.
+Qed.
+
+Lemma dget_In {V} (d : list (Z * V)) k v : dget Z.eqb k d = Some v -> In (k, v) d.
+Proof.
+  induction d as [|[k0 v0] d IH]; cbn [dget]; [discriminate|].
+  destruct (Z.eqb_spec k k0) as [->|_]; [intros [= ->]; now left|intros H; right; now apply IH].
+Qed.
+
+(* per track and pitch, the NOTE_ON events come in the order of the track's notes *)
+Lemma frontend_notes_order g c tracks : valid_piece g c tracks = true -> forall i n, (i < length tracks)%nat ->
+  filter (pitch_is n) (track_notes (Z.of_nat i) (fe_events tracks)) = filter (pitch_is n) (notes_of (nth i tracks [])).
+Proof.
+  intros Hv i n Hi. rewrite track_notes_filter by (apply event_chan with g c; exact Hv).
+  pose proof (P_facts g c tracks Hv) as (Hu & _). unfold fe_events. rewrite (interleave_chan _ _ Hu).
+  rewrite track_notes_chan.
+  - rewrite Z.eqb_refl. now apply frontend_notes_pitch with g c.
+  - unfold chan_pairs. destruct (dget Z.eqb (Z.of_nat i) _) as [pl|] eqn:G; [|constructor].
+    apply (P_chan g c tracks Hv). now apply dget_In.
+Qed.
+
 (* 1. on a valid piece the front end never fails *)
 Theorem C01_frontend_ok_partial : forall (g : Z) (c : cfg) (tracks : list (list msg)),
   valid_piece g c tracks = true -> exists evs, tok_frontend tracks = Ok evs.
 Proof. intros g c tracks Hv. exists (fe_events tracks). now apply frontend_ok with g c. Qed.
 
-(* 2. its events are ordered by time, carry their channel, and the NOTE_ON events of channel i are the notes of track i *)
+(* 2. its events are ordered by time, carry their channel, the NOTE_ON events of channel i are the notes of track i,
+   and the TIME_SIGNATURE events are, in order, the time signatures of track 0 *)
 Theorem C01_frontend_notes_partial : forall (g : Z) (c : cfg) (tracks : list (list msg)) (evs : list C01_rest.event),
   valid_piece g c tracks = true -> tok_frontend tracks = Ok evs ->
   StronglySorted (fun a b => ev_time a <= ev_time b) evs /\
   (forall e, In e evs -> fst e = m_chan (ev_msg e)) /\
-  forall i, (i < length tracks)%nat -> Permutation (track_notes (Z.of_nat i) evs) (notes_of (nth i tracks [])).
+  (forall i, (i < length tracks)%nat ->
+     Permutation (track_notes (Z.of_nat i) evs) (notes_of (nth i tracks [])) /\
+     forall n, filter (pitch_is n) (track_notes (Z.of_nat i) evs) = filter (pitch_is n) (notes_of (nth i tracks []))) /\
+  map ev_tsv (filter is_tsev evs) = piece_tsl tracks.
 Proof.
   intros g c tracks evs Hv He. rewrite (frontend_ok g c tracks Hv) in He. injection He as <-.
   split; [exact (events_sorted g c tracks Hv)|]. split; [now apply event_chan with g c|].
-  intros i Hi. now apply frontend_notes with g c.
+  split; [|now apply events_ts with g c]. intros i Hi. split; [now apply frontend_notes with g c|].
+  intros n. now apply frontend_notes_order with g c.
 Qed.
 
 (* 3. the events are valid input for the core *)
 Theorem C01_frontend_valid_partial : forall (g : Z) (c : cfg) (tracks : list (list msg)) (evs : list C01_rest.event),
-  valid_piece g c tracks = true -> tok_frontend tracks = Ok evs -> valid_events g c evs = true.
+  valid_cfg g c = true -> valid_piece g c tracks = true -> tok_frontend tracks = Ok evs -> valid_events g c evs = true.
 Proof.
-  intros g c tracks evs Hv He. rewrite (frontend_ok g c tracks Hv) in He. injection He as <-.
+  intros g c tracks evs Hc Hv He. rewrite (frontend_ok g c tracks Hv) in He. injection He as <-.
   now apply frontend_valid.
 Qed.
 
@@ -461,7 +630,7 @@ Theorem C01_piece_roundtrip_partial : forall (g : Z) (c : cfg) (tracks : list (l
       Permutation (filter is_note (nth i seqs [])) (flat_map (note_msgs c) (notes_of (nth i tracks []))).
 Proof.
   intros g c tracks Hc Hv.
-  pose proof (frontend_valid g c tracks Hv) as Hval.
+  pose proof (frontend_valid g c tracks Hc Hv) as Hval.
   destruct (C01_core_roundtrip g c (fe_events tracks) Hc Hval) as (toks & st & seqs & H1 & H2 & H3 & H4 & H5 & H6 & H7).
   destruct (encode_total c toks H2) as (ids & He).
   pose proof (valid_piece_parts g c tracks Hv) as (Hlen & _).
@@ -507,3 +676,31 @@ Example ex_overlap_rejected :
   valid_track 0 r = false /\ notes_of r = [(60, 12, 24, 90)] /\
   match tok_frontend [r] with Ok evs => map (fun e => (ev_time e, ev_dur e)) evs | Err _ => [] end = [(0, 36)].
 Proof. vm_compute. repeat split; reflexivity. Qed.
+
+(* a piece with time signatures on track 0: 3/4 at tick 0, 4/4 on the next bar line (tick 72), and a 6/8 inside a bar
+   (tick 96, ignored by the tokeniser) *)
+Definition ex_ts (n d : Z) : msg := mk_ts 9 n d 0 false.
+Definition ex_piece_ts : list (list msg) :=
+  [ [ex_ts 3 4; ex_on 60 100; ex_w 24; ex_off 60; ex_w 48; ex_ts 4 4; ex_on 62 90; ex_w 24; ex_off 62; ex_ts 6 8;
+     ex_on 61 64; ex_w 12; ex_off 61];
+    [ex_w 12; ex_on 60 70; ex_w 6; ex_off 60; ex_w 54; ex_on 62 127; ex_w 24; ex_off 62] ].
+
+Example ex_piece_ts_valid :
+  valid_piece 2 cfg_ex ex_piece_ts = true /\ piece_tsl ex_piece_ts = [(0, 3, 4); (72, 4, 4); (96, 6, 8)].
+Proof. vm_compute. split; reflexivity. Qed.
+
+Example ex_piece_ts_events :
+  match tok_frontend ex_piece_ts with
+  | Ok evs => map (fun e => (fst e, m_type (ev_msg e), m_note (ev_msg e), ev_time e, ev_dur e)) evs
+  | Err _ => []
+  end = [(0, TIME_SIGNATURE, -1, 0, 0); (0, NOTE_ON, 60, 0, 24); (1, NOTE_ON, 60, 12, 6); (0, TIME_SIGNATURE, -1, 72, 0);
+         (0, NOTE_ON, 62, 72, 24); (1, NOTE_ON, 62, 72, 24); (0, TIME_SIGNATURE, -1, 96, 0); (0, NOTE_ON, 61, 96, 12)].
+Proof. vm_compute. reflexivity. Qed.
+
+(* a repeated time signature is dropped by normalise: excluded by valid_track (ts_ok) *)
+Example ex_repeated_ts_rejected :
+  let r := [ex_ts 3 4; ex_w 72; ex_ts 3 4; ex_on 60 100; ex_w 24; ex_off 60] in
+  valid_track 0 r = false /\
+  match tok_frontend [r] with Ok evs => map (fun e => (m_type (ev_msg e), ev_time e)) evs | Err _ => [] end
+  = [(TIME_SIGNATURE, 0); (NOTE_ON, 72)].
+Proof. vm_compute. split; reflexivity. Qed.
